@@ -500,8 +500,7 @@ func containsString(path []string, rid string) bool {
 	return false
 }
 
-func (s *Subscription) unsubscribeRefs() {
-	sent := s.IsSent()
+func (s *Subscription) unsubscribeRefs(sent bool) {
 	for _, ref := range s.refs {
 		s.c.Unsubscribe(ref.sub, false, sent, 1, false)
 	}
@@ -814,7 +813,9 @@ func (s *Subscription) Dispose() {
 	s.throttle = nil
 
 	if s.resourceSub != nil {
-		s.unsubscribeRefs()
+		// The state is already set to disposed. Use the previous state to
+		// tell if the references have been sent to the client.
+		s.unsubscribeRefs(state == stateSent)
 		if state != stateDeleted {
 			s.resourceSub.Unsubscribe(s)
 		}
